@@ -25,7 +25,7 @@ RULE = ("two seeded modes. history: sequences of 2-5 runs on one thread - comple
         "activation boundary and at every line of StateHandler.assign, Loop.run and usim.run. "
         "Non-trivial = a history with a failing / leaking / nested run, or a threaded trial with "
         ">= 20 baton switches; distinct = distinct (mode, per-run digests / switch sequence).")
-BUDGET = {"quick": {"cases": 8000, "wall_s": 100, "chunk": 20},
+BUDGET = {"quick": {"cases": 8000, "wall_s": 240, "chunk": 20},
           "thorough": {"cases": 120000, "wall_s": 1500, "chunk": 50}}
 ASSUMPTIONS = ["pre-emption inside C code is not modelled (the GIL makes it atomic anyway)",
                "the thread scheduler is replaced by the baton: real threads, seeded choice of "
